@@ -45,11 +45,11 @@ class Check(CheckBase):
     def generate(self):
         quick = self.tier == 'quick'
         cases = []
-        for i in range(130 if quick else 8000):
+        for i in range(130 if quick else 24000):
             r = random.Random(f'C14/{self.seed}/w/{i}')
             cases.append({'dir': 'write', 'seed': r.randrange(1 << 30), 'settings': c14_settings(r, i),
                           'backend': ['mem', 'amem', 'local'][i % 3]})
-        for i in range(130 if quick else 8000):
+        for i in range(130 if quick else 24000):
             r = random.Random(f'C14/{self.seed}/r/{i}')
             cases.append({'dir': 'read', 'seed': r.randrange(1 << 30), 'settings': c14_settings(r, i),
                           'layout': LAYOUTS[i % 4], 'legacy': (i // 4) % 2 == 1, 'piece': r.choice([1, 3, 7, 64, 1000])})
